@@ -1,6 +1,7 @@
 package main
 
 import (
+	"context"
 	"fmt"
 	"os"
 	"path/filepath"
@@ -10,8 +11,10 @@ import (
 	"syscall"
 	"time"
 
+	"github.com/criyle/go-sandbox/container"
 	"github.com/criyle/go-sandbox/pkg/forkexec"
 	"github.com/criyle/go-sandbox/pkg/mount"
+	"github.com/criyle/go-sandbox/runner"
 	"golang.org/x/sys/unix"
 	"verif/mc"
 )
@@ -180,15 +183,18 @@ func c04launch(o c04opts) (rep *report, ns map[string]string, launchErr error, h
 	return rep, ns, nil, nil
 }
 
+var c04tier = "quick"
+
 func init() {
 	registry["C04"] = func(tier string) *mc.Spec {
+		c04tier = tier
 		spec := &mc.Spec{
 			Level: "exploration",
 			Rule: "all subsets of {credential, drop-caps, no-new-privs, seccomp, sync callback, unshare-cgroup-after-sync} × namespace mode {none, user, pid+mnt+uts+ipc+net, user+those, those+pivot root, user+those+pivot root} × " +
 				"{no tracing, ptrace (harness attaches and detaches), stop-before-seccomp} (quick: tracing modes only without namespaces) with work dir and host/domain name set whenever the namespaces allow; " +
 				"the launched probe reports caps, securebits, no_new_privs, seccomp mode, ids, groups, session, cwd, uname; namespace identities are read from the host side. " +
-				"non-trivial: at least one option set; distinct = (option set, observed state vector)",
-			Bound:       map[string]any{"clone_into_cgroup": "not exercised (no cgroup v2 controllers on this kernel configuration)", "ctty": "not exercised"},
+				"second launcher: container.Builder + Execve over {credential generator none / default ids / custom ids, custom host+domain name, custom work dir, seccomp filter, unshare-cgroup-before-exec, sync after exec, clone into a cgroup v2 directory, custom clone flags without a net namespace}. non-trivial: at least one option set; distinct = (option set, observed state vector)",
+			Bound:       map[string]any{"clone_into_cgroup": "exercised through the container launcher with a directory of the controller-less cgroup2 hierarchy at /sys/fs/cgroup/unified", "ctty": "not exercised"},
 			Assumptions: []string{"reference function options → state written from the property text (cmd/vcheck/c04.go)", "combinations the kernel rejects surface as a launch error and are recorded, not judged"},
 			SplitDepth:  3,
 			Workers:     4,
@@ -202,6 +208,10 @@ func init() {
 		spec.Fini = cleanupTmp
 		myNS := nsOf("self")
 		spec.Body = func(x *mc.X) {
+			if x.Choose(2, "launcher") == 1 {
+				c04container(x, myNS)
+				return
+			}
 			var o c04opts
 			nsMode := x.Choose(6, "nsmode")
 			trace := x.Choose(3, "trace")
@@ -321,4 +331,173 @@ func harnessGroups() []int {
 	g, _ := syscall.Getgroups()
 	sort.Ints(g)
 	return g
+}
+
+// c04container: the same question through container.Builder + Execve, which fix some options (capabilities dropped,
+// no_new_privs, own session) and derive others from the builder (credentials, names, work dir, namespaces).
+func c04container(x *mc.X, myNS map[string]string) {
+	cred := x.Choose(3, "credential") // 0 none, 1 default container ids, 2 custom ids
+	names := x.Bool("custom-host-domain")
+	filter := x.Bool("seccomp")
+	syncAfter := x.Bool("sync-after-exec")
+	intoCgroup := x.Bool("clone-into-cgroup")
+	// quick ties three secondary options to primary ones; thorough enumerates them independently
+	workdir, ucg, keepNet := names, filter, syncAfter
+	if c04tier == "thorough" {
+		workdir = x.Bool("custom-workdir")
+		ucg = x.Bool("unshare-cgroup-before-exec")
+		keepNet = x.Bool("custom-clone-flags(no-net)")
+	}
+	desc := fmt.Sprintf("container cred=%d names=%v workdir=%v seccomp=%v cgroup-before-exec=%v sync-after=%v into-cgroup=%v keep-net=%v", cred, names, workdir, filter, ucg, syncAfter, intoCgroup, keepNet)
+	x.Note("options", desc)
+	if x.Dry() {
+		return
+	}
+	c, err := newContainer(func(b *container.Builder) {
+		if cred > 0 {
+			b.CredGenerator = fixedCred{}
+		}
+		if cred == 2 {
+			b.ContainerUID, b.ContainerGID = 1234, 2345
+		}
+		if names {
+			b.HostName, b.DomainName = "c04host", "c04domain"
+		}
+		if workdir {
+			b.WorkDir = "/tmp"
+		}
+		b.UnshareCgroupBeforeExec = ucg
+		if keepNet {
+			b.CloneFlags = unix.CLONE_NEWUSER | unix.CLONE_NEWPID | unix.CLONE_NEWNS | unix.CLONE_NEWUTS | unix.CLONE_NEWIPC | unix.CLONE_NEWCGROUP
+		}
+	})
+	if err != nil {
+		x.Failf("C04/container/build-failed", "%s: %v", desc, err)
+		return
+	}
+	defer c.Destroy()
+	// the report is written into a tmpfs; the program may run under another uid
+	root := ""
+	if ps := childInits(os.Getpid()); len(ps) > 0 {
+		root = fmt.Sprintf("/proc/%d/root", ps[len(ps)-1])
+		os.Chmod(root+"/w", 0777)
+		os.Chmod(root+"/tmp", 0777)
+	}
+	p := execveParam([]string{"/probe/report", "--outfile=/w/r.json", "--wait", "--in=0"})
+	pr, pw, _ := os.Pipe()
+	defer pr.Close()
+	defer pw.Close()
+	p.Files = []uintptr{pr.Fd(), devnull(), devnull()}
+	if filter {
+		p.Seccomp = allowAll()
+	}
+	p.SyncAfterExec = syncAfter
+	cgName := ""
+	if intoCgroup {
+		cgName = fmt.Sprintf("verif-c04-%d-%s", os.Getpid(), newNonce())
+		dir := "/sys/fs/cgroup/unified/" + cgName
+		if err := os.Mkdir(dir, 0755); err != nil {
+			x.Failf("C04/harness", "cgroup2 dir: %v", err)
+			return
+		}
+		defer syscall.Rmdir(dir)
+		f, err := os.Open(dir)
+		if err != nil {
+			x.Failf("C04/harness", "%v", err)
+			return
+		}
+		defer f.Close()
+		p.CgroupFD = f.Fd()
+	}
+	var ns map[string]string
+	member := ""
+	progPid := 0
+	p.SyncFunc = func(pid int) error { progPid = pid; return nil }
+	resCh := make(chan runner.Result, 1)
+	go func() { resCh <- c.Execve(context.Background(), p) }()
+	var rep *report
+	ok := waitUntil(horizon, func() bool {
+		r, err := readReport(root + "/w/r.json")
+		if err != nil || progPid == 0 { // with sync after exec the program reports before the callback has run
+			return false
+		}
+		rep = r
+		return true
+	})
+	if ok {
+		// identify the program from the host side: the process inside the container whose NSpid ends with the reported pid
+		hostPid := progPid
+		if syncAfter {
+			hostPid = findByNSpid(rep.Pid, progPid)
+		}
+		ns = nsOf(fmt.Sprint(hostPid))
+		if b, err := os.ReadFile(fmt.Sprintf("/proc/%d/cgroup", hostPid)); err == nil {
+			for _, l := range strings.Split(string(b), "\n") {
+				if strings.HasPrefix(l, "0::") {
+					member = l[3:]
+				}
+			}
+		}
+	}
+	pw.Write([]byte{'x'})
+	pw.Close()
+	var res runner.Result
+	select {
+	case res = <-resCh:
+	case <-time.After(horizon):
+		x.Failf("C04/container/run-hangs", "%s: Execve did not return", desc)
+		return
+	}
+	if !ok || res.Status != runner.StatusNormal {
+		x.Failf("C04/container/no-report", "%s: %v %s (report seen: %v)", desc, res.Status, res.Error, ok)
+		return
+	}
+	chk := func(cond bool, key, format string, a ...any) {
+		if !cond {
+			x.Failf("C04/container/"+key, "%s: "+format, append([]any{desc}, a...)...)
+		}
+	}
+	zero := "0000000000000000"
+	chk(rep.CapEff == zero && rep.CapPrm == zero && rep.CapInh == zero && rep.CapAmb == zero, "caps-not-empty", "capability sets eff=%s prm=%s inh=%s amb=%s", rep.CapEff, rep.CapPrm, rep.CapInh, rep.CapAmb)
+	chk(rep.Securebits&1 != 0, "noroot-not-set", "securebits %#x lack SECBIT_NOROOT", rep.Securebits)
+	chk(rep.NoNewPrivs == 1, "no-new-privs", "no_new_privs=%d", rep.NoNewPrivs)
+	chk((rep.Seccomp == 2) == filter, "seccomp-mode", "seccomp mode %d, filter given: %v", rep.Seccomp, filter)
+	wantU, wantG := 0, 0
+	switch cred {
+	case 1:
+		wantU, wantG = 1000, 1000
+	case 2:
+		wantU, wantG = 1234, 2345
+	}
+	chk(rep.UID == [3]int{wantU, wantU, wantU} && rep.GID == [3]int{wantG, wantG, wantG}, "ids", "uids %v gids %v, expected %d/%d", rep.UID, rep.GID, wantU, wantG)
+	chk(rep.Sid == rep.Pid, "session", "sid %d != pid %d", rep.Sid, rep.Pid)
+	wantCwd, wantHost, wantDom := "/w", "go-sandbox", "go-sandbox"
+	if workdir {
+		wantCwd = "/tmp"
+	}
+	if names {
+		wantHost, wantDom = "c04host", "c04domain"
+	}
+	chk(rep.Cwd == wantCwd, "cwd", "cwd %q, expected %q", rep.Cwd, wantCwd)
+	chk(rep.Host == wantHost && rep.Domain == wantDom, "uname", "host/domain %q/%q, expected %q/%q", rep.Host, rep.Domain, wantHost, wantDom)
+	for _, n := range []string{"user", "pid", "mnt", "uts", "ipc"} {
+		chk(ns[n] != "" && ns[n] != myNS[n], "namespace-"+n, "%s namespace is the launcher's own", n)
+	}
+	chk((ns["net"] != myNS["net"]) == !keepNet, "namespace-net", "net namespace new=%v, keep-net requested=%v", ns["net"] != myNS["net"], keepNet)
+	if intoCgroup {
+		chk(member == "/"+cgName, "not-in-requested-cgroup", "program is in cgroup %q, requested /%s", member, cgName)
+	}
+	x.Distinct(desc + fmt.Sprint(rep.UID[0], rep.Seccomp, member != ""))
+	x.Outcome(fmt.Sprintf("container:uid=%d:sec=%d:cg=%v", rep.UID[0], rep.Seccomp, intoCgroup))
+}
+
+// findByNSpid returns the host pid of the process whose innermost pid is inner and whose parent is initPid.
+func findByNSpid(inner, initPid int) int {
+	for p := range childPids(initPid) {
+		f := strings.Fields(nspidLine(p))
+		if len(f) > 1 && f[len(f)-1] == fmt.Sprint(inner) {
+			return p
+		}
+	}
+	return initPid
 }
